@@ -154,8 +154,22 @@ def decorate(case, rng, dflags):
             ['    call hsub(n, c1(1, 1), zs, s2)'])
         marks['seq_assoc'] = True
     if dflags.get('dead_code'):
-        v = rng.randrange(4)
-        if v == 3:
+        v = rng.randrange(6)
+        if v == 4:
+            # statically decidable SELECT CASE whose *selected* body contains dead code of its own
+            blk('dead_code', ['    select case (2)', '    case (1)', f'      zs = {R("1.0")}', '    case (2)', f'      zs = {R("3.0")}',
+                              '      if (.false.) then', f'        zs = {R("7.5")}', '      end if',
+                              '      if (lg1) then', '        zs = s1', '      end if',
+                              '    case default', '      zs = s1', '    end select'])
+            feats.add('d:dead_select')
+        elif v == 5:
+            # ... a nested decidable SELECT (under a run-time condition) and a two-way constant IF inside the selected body
+            blk('dead_code', ['    select case (2)', '    case (2)', '      if (lg1) then', '        select case (3)', '        case (3)',
+                              f'          zs = {R("3.0")}', '        case default', f'          zs = {R("7.5")}', '        end select',
+                              '      end if', '      if (.false.) then', f'        zs = {R("0.5")}', '      else',
+                              f'        zs = zs + {R("1.0")}', '      end if', '    case default', '      zs = s1', '    end select'])
+            feats.add('d:dead_select')
+        elif v == 3:
             blk('dead_code', ['    if (.true.) then', f'      zs = {R("3.0")}', '      if (.false.) then', f'        zs = {R("7.5")}',
                               '      end if', '      if (lg1) then', '        if (.not. .true.) then', f'          zs = {R("0.5")}',
                               '        end if', '      end if', '    end if'])
